@@ -88,10 +88,12 @@ class EpisodeOut:
         self.obs: List[tuple] = []
         self.overridden: List[int] = []  # supervisor ticks whose step was overridden by the user
         self.record = None
+        self.mid_record = None  # record fetched in the middle of the episode (plan: mid_record)
         self.record_error = None
         self.trace: List[dict] = []
         self.stopped = False
         self.gs0 = None
+        self.t_begin = self.t_end = None  # virtual wall-clock bracket of the episode (start of its first call .. return of stop())
 
 
 class RunOut:
@@ -135,7 +137,7 @@ def execute(plan: dict, replay: Optional[dict] = None, keep_graph: bool = False,
     spec = plan["spec"]
     t0 = _rt.time()
     K.begin_run(fair_k=plan.get("fair_k", 64), line_rate=plan.get("line_rate", 0.0), line_seed=plan["seed"] ^ 0x5151, fault_seed=plan["seed"] ^ 0xFA17,
-                replay=replay, hot_rate=plan.get("hot_rate", 0.0), spin_guard=bool(plan.get("spin_guard")))
+                replay=replay, hot_rate=plan.get("hot_rate", 0.0), spin_guard=bool(plan.get("spin_guard")), pause_rate=plan.get("pause_rate", 0.0))
     comp_rng = random.Random(plan["seed"] ^ 0xC0)
     try:
         try:
@@ -249,6 +251,7 @@ def _episode(g, gs0, sup, ep, eo: EpisodeOut, clock, const, plan):
         K.count("carry_over_start")
         gs_init = carried.replace(eps=onp.int32(j))
     eo.gs0 = gs_init
+    eo.t_begin = K.now  # virtual wall clock when the user starts this episode
     slow = ep.get("slow_user") or []
     budget = ep.get("budget", DEFAULT_BUDGET)
 
@@ -258,6 +261,19 @@ def _episode(g, gs0, sup, ep, eo: EpisodeOut, clock, const, plan):
     to = ep.get("timeout")  # optional timeout argument of reset()/run()/stop() (virtual seconds)
     if to:
         K.count("timeout_args")
+
+    def mid(i, gs_):
+        # the user asks for the record in the middle of the episode (after step i) and goes on; only once every node and input is active
+        # (get_record() on a node without a step raises on the pinned tree, DESIGN 6 D5)
+        if ep.get("mid_record") is not None and i >= ep["mid_record"] and eo.mid_record is None and _all_active(gs_):
+            K.count("mid_episode_get_record")
+            try:
+                eo.mid_record = g.get_record()
+            except km.SimAbort:
+                raise
+            except Exception as e:  # (D5: an input without a message for the recorded steps, e.g. under max_records)
+                eo.mid_record = False
+                eo.record_error = repr(e)[:300]
 
     try:
         if ep["api"] == "gym":
@@ -275,6 +291,7 @@ def _episode(g, gs0, sup, ep, eo: EpisodeOut, clock, const, plan):
                 else:
                     gs, ss = _call(eo, "step", g.step, gs, budget=budget, slow=sl(i + 1))
                 eo.obs.append(obs_digest(ss))
+                mid(i, gs)
             extra = 0
             while ep.get("until_active") and extra < 15 and not _all_active(gs):
                 gs, ss = _call(eo, "step", g.step, gs, budget=budget)
@@ -284,6 +301,7 @@ def _episode(g, gs0, sup, ep, eo: EpisodeOut, clock, const, plan):
             gs = gs_init
             for i in range(ep["nsteps"]):
                 gs = _call(eo, "run", (lambda s_: g.run(s_, timeout=to)) if to else g.run, gs, budget=budget, slow=sl(i))
+                mid(i, gs)
             extra = 0
             while ep.get("until_active") and ep["nsteps"] > 0 and extra < 15 and not _all_active(gs):
                 gs = _call(eo, "run", g.run, gs, budget=budget)
@@ -299,6 +317,7 @@ def _episode(g, gs0, sup, ep, eo: EpisodeOut, clock, const, plan):
             _probe_stop(g, sup)
             _call(eo, "stop", (lambda: g.stop(timeout=to)) if to else g.stop, budget=budget, slow=sl(ep["nsteps"] + 1))
             eo.stopped = True
+            eo.t_end = K.now
             if ending == "stop2":
                 _call(eo, "stop", g.stop, budget=budget)
             if ep["api"] == "gym" or (ep["api"] == "run" and ep["nsteps"] > 0):
